@@ -85,6 +85,11 @@ class Sidecar:
         if os.path.exists(lp):
             import json as _json
             self.loop_headers = _json.load(open(lp))
+        self.signatures: Dict[str, list] = {}
+        sp = os.path.join(cdir, 'signatures.json')
+        if os.path.exists(sp):
+            import json as _json
+            self.signatures = _json.load(open(sp))
         for fn in sorted(os.listdir(cdir)):
             if not fn.endswith('.py'):
                 continue
@@ -320,7 +325,18 @@ class Engine(Core, Expr, Calls, Builtins, Stmts):
         a = fnode.args
         env: Dict[str, SV] = {}
         pnames = [p.arg for p in a.posonlyargs + a.args + a.kwonlyargs]
+        base_sig = self.sidecar.signatures.get(con.key)
+        defaults = dict(zip([p.arg for p in (a.posonlyargs + a.args)][len(a.posonlyargs + a.args) - len(a.defaults):], a.defaults))
+        defaults.update({k_.arg: d_ for k_, d_ in zip(a.kwonlyargs, a.kw_defaults) if d_ is not None})
         for p in pnames:
+            if base_sig is not None and p not in base_sig and p in defaults:
+                # a parameter the contract was not written for (added later, with a default): the function is verified as its existing
+                # callers use it, i.e. with the default; a call site that passes the parameter is flagged 'needs contract'
+                try:
+                    env[p] = self.ev1(defaults[p], State({}, []))[0]
+                    continue
+                except OutOfSubset:
+                    pass
             kind = con.shapes.get(p)
             sv = self.mkval(z3.Const(p, th.Val), kind, fresh=False)
             env[p] = sv
